@@ -113,6 +113,11 @@ def family():
                     out.append((key, Scalar(), cls, m, ("one",)))
                     if m in ("in_", "not_in") or names == ["keys"]:
                         out.append((key, ScalarSeq(), cls, m, ("one",)))
+                    if key == spellings(label, m)[0]:
+                        # a literal mapping as the single argument - also one whose only key is the parameter's name: it
+                        # is the value to compare with, never a by-name call
+                        out.append((key, ScalarMap(names), cls, m, ("one",)))
+                        out.append((key, ScalarMap(["other"]), cls, m, ("one",)))
                 else:
                     out.append((key, ScalarList(len(names)), cls, m, ("list", len(names))))
                     out.append((key, ScalarMap(names), cls, m, ("map", names)))
